@@ -35,11 +35,13 @@ type Cfg struct {
 	HdrVer    int  `json:"hdrVer"`
 	Free      bool `json:"free"` // free-running: real goroutines + syncer with a short SyncFrequency
 	IdxFlush  int  `json:"idxFlush"`
+	Physical  bool `json:"physical"` // durability observed per physical chunk file (cachestat), store on a disk fs
+	Long      bool `json:"long"`     // long schedule (many transactions: every log rotates several times)
 }
 
 func (c Cfg) String() string {
-	return fmt.Sprintf("emb=%v pre=%v fs=%d wb=%d act=%d io=%d aht=%d/%d ext=%v v=%d free=%v",
-		c.Embedded, c.Prealloc, c.FileSize, c.WriteBuf, c.MaxActive, c.IOConc, c.AhtThld, c.AhtBuf, c.ExtAllow, c.HdrVer, c.Free)
+	return fmt.Sprintf("emb=%v pre=%v fs=%d wb=%d act=%d io=%d aht=%d/%d ext=%v v=%d free=%v phys=%v",
+		c.Embedded, c.Prealloc, c.FileSize, c.WriteBuf, c.MaxActive, c.IOConc, c.AhtThld, c.AhtBuf, c.ExtAllow, c.HdrVer, c.Free, c.Physical)
 }
 
 func quiet() logger.Logger { return logger.NewSimpleLoggerWithLevel("vh", io.Discard, logger.LogError) }
@@ -96,6 +98,24 @@ func genCfg(rng *rand.Rand, k int) Cfg {
 		c.MaxActive = 3
 	}
 	return c
+}
+
+// genRotCfg: chunk rotation is the point: small FileSize (tx records of 180..300 bytes straddle the
+// chunk boundary almost every time, the commit log rotates every 5-6 transactions, the value logs every
+// few transactions), a long schedule, durability observed per physical chunk file.
+func genRotCfg(rng *rand.Rand, k int) Cfg {
+	return Cfg{
+		FileSize:  []int{256, 384, 512, 1024}[rng.Intn(4)],
+		WriteBuf:  []int{64, 128, 512, 4096}[rng.Intn(4)],
+		MaxActive: 2 + rng.Intn(3),
+		IOConc:    1 + rng.Intn(2),
+		AhtThld:   1 + rng.Intn(4),
+		AhtBuf:    []int{64, 512}[rng.Intn(2)],
+		HdrVer:    rng.Intn(2),
+		Free:      k%5 == 4,
+		Physical:  true,
+		Long:      true,
+	}
 }
 
 // ---- reference history -------------------------------------------------------------------------
@@ -189,7 +209,11 @@ func commitKVs(st *store.ImmuStore, kvs []kv, async bool, timeout time.Duration)
 func RunWorkload(seed int64, idx int, cfg Cfg, dir string) (*Workload, error) {
 	rng := rand.New(rand.NewSource(seed*1_000_003 + int64(idx)*7919 + 11))
 	w := &Workload{Seed: seed, Idx: idx, Cfg: cfg, Dir: dir, Refs: map[uint64]*txRef{}}
-	w.Rec = NewRecorder(dir, true)
+	if cfg.Physical {
+		w.Rec = NewPhysicalRecorder(dir)
+	} else {
+		w.Rec = NewRecorder(dir, true)
+	}
 	freq := 10 * time.Minute
 	if cfg.Free {
 		freq = 2 * time.Millisecond
@@ -244,6 +268,9 @@ func (w *Workload) runDriven(st *store.ImmuStore, rng *rand.Rand) error {
 	var mu sync.Mutex
 	inflight := 0
 	nsteps := 10 + rng.Intn(14)
+	if w.Cfg.Long {
+		nsteps = 40 + rng.Intn(16)
+	}
 	launch := func() {
 		kvs := randEntries(rng)
 		async := rng.Intn(3) == 0
@@ -339,6 +366,9 @@ func (w *Workload) runFree(st *store.ImmuStore, rng *rand.Rand) error {
 	var wg sync.WaitGroup
 	ncomm := 2 + rng.Intn(3)
 	per := 3 + rng.Intn(4)
+	if w.Cfg.Long {
+		per = 8 + rng.Intn(5)
+	}
 	stop := make(chan struct{})
 	if w.Cfg.ExtAllow {
 		go func() {
